@@ -2,16 +2,24 @@
   C03 — The schedule is causal: state at step k depends only on input up to step k.   (proof, partial)
 
   What is proved (for every schedule length, every cut, every tail):
-    * the ScheduleDeck partition of the past does not depend on the future (`blocks_prefix`);
-    * the core keyword semantics (WELSPECS, COMPDAT, WCONPROD, WCONINJE, WELOPEN, WELTARG, WEFAC,
-      GRUPTREE, GEFAC, GCONPROD, ACTIONX registry) is causal end to end (`causal`);
+    * the ScheduleDeck partition of the past does not depend on the future (`blocks_prefix`), also
+      for restarted runs: the skipped part contributes exactly its white-listed keywords to block 0
+      (`blocks_restart_skipped`) and after the restart time every closed block is final
+      (`blocks_prefix_restart`); `blocks_norestart` ties the two models;
+    * the keyword semantics of `Model/SchedCore.lean` (23 record operations: WELSPECS incl. regrouping
+      and head change, COMPDAT, COMPLUMP, WPIMULT immediate/deferred, WELOPEN, WCONPROD, WCONINJE,
+      WCONHIST, WCONINJH, WHISTCTL, WELTARG, WEFAC, WECON, WTEST, WLIST, GRUPTREE, GEFAC, GCONPROD,
+      GCONINJE, NEXTSTEP, UDQ and ACTIONX registries) is causal end to end (`causal`);
     * the copy-on-write discipline: effect traces without in-place writes to shared objects and
       without writes to globals a snapshot reads leave all earlier snapshots unchanged
       (`cow_frame`, `cow_frame_blocks`);
-    * every site of the real handlers that can break that discipline is in an explicit
-      allow-list (`handlers_cow_safe`, over the table regenerated from the sources).
-  What is only observed (property mode on the real code): all other keywords (≈190 handlers),
-  the restart/SKIPREST variant of the partition, members outside the observation record.
+    * every site of the real handlers that can break that discipline — non-const references into
+      a snapshot, any selector of `snapshots` other than the current step, container-level mutations
+      of the snapshot vector, uses of names bound from an earlier snapshot, global writes — is safe
+      by class or in an explicit allow-list (`handlers_cow_safe`, over the table regenerated from
+      the sources).
+  What is only observed (property mode on the real code): all other keywords (≈175 handlers),
+  members outside the observation record, the state loaded from a restart file.
 -/
 import OpmVerif.Proofs.SchedCore
 import OpmVerif.Proofs.SchedHeap
@@ -32,6 +40,31 @@ theorem blocks_prefix {κ : Type} (start : Time) (pre : List (Kw κ)) (t : Kw κ
   rw [e] at h h'
   have := blocks_prefix_gen (pre ++ [t]) tail tail' h h'
   simpa [nsteps_append, nsteps] using this
+
+/-- Restarted runs (report_step > 0, optionally SKIPREST), the skipped part: as long as the
+restart time has not been reached (`rst_skip` still true after reading `a`), the block list is
+the initial one (placeholders 0 .. report_step-1) except that block 0 has collected exactly the
+white-listed keywords of `a`, in order; every other keyword and every time record of `a` is
+dropped. -/
+theorem blocks_restart_skipped {κ : Type} (cfg : RCfg) (wl : κ → Bool) (start : Time) (a : List (Kw κ)) (s1 : RSt κ)
+    (h : runEvsR cfg wl (rinit cfg start) (flatten a) = .ok s1) (hs : s1.skip = true) :
+    s1.all = addFirst (rinit cfg start : RSt κ).all (whitelisted wl (flatten a)) :=
+  runEvsR_skip_phase h hs
+
+/-- Restarted runs, after the skipped part: once the restart time has been reached by the prefix
+`a` (`rst_skip` false), every block closed so far — the placeholders, block 0 with its collected
+keywords, and the blocks of the report steps since — is the same whatever follows. -/
+theorem blocks_prefix_restart {κ : Type} (cfg : RCfg) (wl : κ → Bool) (start : Time) (a b b' : List (Kw κ))
+    (bs bs' : List (Block κ)) (s1 : RSt κ)
+    (ha : runEvsR cfg wl (rinit cfg start) (flatten a) = .ok s1) (hs : s1.skip = false)
+    (h : rblocks cfg wl start (a ++ b) = .ok bs) (h' : rblocks cfg wl start (a ++ b') = .ok bs') :
+    bs.take s1.closed.length = bs'.take s1.closed.length := by
+  rw [rblocks_split ha hs h, rblocks_split ha hs h']
+
+/-- Without a restart the restarted-run partition is the plain one. -/
+theorem blocks_norestart {κ : Type} (wl : κ → Bool) (start t : Time) (kws : List (Kw κ)) :
+    rblocks { rstep := 0, rtime := t, skiprest := false } wl start kws = blocks start kws :=
+  rblocks_norestart wl start t kws
 
 /-- … and the number of blocks is the number of report steps plus one. -/
 theorem blocks_count {κ : Type} (start : Time) (kws : List (Kw κ)) (bs : List (Block κ))
@@ -78,10 +111,12 @@ theorem cow_frame_blocks (reads : Nat → Bool) (σ : St) (hwf : WF σ) (bs : Li
 open OpmVerif.Gen.HandlerEffects
 
 /-- Sites that are safe by their class: by-value members of the snapshot being processed,
-aliases of it, reads of other snapshots, in-place mutators on a freshly copied object. -/
+aliases of it, reads of other snapshots, in-place mutators on a freshly copied object,
+appends to the snapshot vector. -/
 def safeKind (s : Site) : Bool :=
   (s.kind == "refValue" && s.recv == "cur") || (s.kind == "snapAlias" && s.recv == "cur") ||
-  s.kind == "snapIndexR" || (s.kind == "innerShared" && s.recv == "fresh")
+  s.kind == "snapIndexR" || s.kind == "snapOtherR" || (s.kind == "innerShared" && s.recv == "fresh") ||
+  (s.kind == "snapContainer" && (s.recv == "emplace_back" || s.recv == "push_back" || s.recv == "reserve"))
 
 /-- (function, kind, receiver, justification).  Everything else must be `safeKind`. -/
 def allowList : List (String × String × String × String) := [
@@ -108,9 +143,15 @@ def allowList : List (String × String × String × String) := [
   ("Schedule::filterConnections", "refShared", "all", "same: deliberately all snapshots, not a keyword handler"),
   ("Schedule::addGroup", "refShared", "cur", "RstGroup overload (restart only): FIELD controls from the restart file"),
   ("Schedule::load_rst", "refShared", "cur", "restart only: earlier snapshots are empty placeholders"),
-  ("Schedule::applyWellProdIndexScaling", "refShared", "other:step", "run-time PI scaling of step n and later, in place BY DESIGN for later steps; reaches earlier snapshots through shared objects — finding C04/welpi, see design.d/C04.md"),
-  ("Schedule::applyWellProdIndexScaling", "innerShared", "shared", "same finding"),
-  ("handleWELPIRuntime", "innerShared", "shared", "FINDING C04/welpi: scales the WellConnections shared with earlier snapshots (reproduced on the real code)")
+  ("Schedule::applyWellProdIndexScaling", "refShared", "other:step", "run-time PI scaling of step n and later, in place BY DESIGN for later steps (the caller installs independent WellConnections copies first, see design.d/C04.md)"),
+  ("Schedule::applyWellProdIndexScaling", "innerShared", "shared", "same: run-time PI scaling of steps >= reportStep"),
+  ("Schedule::serializationTestObject", "snapContainer", "operator=", "fresh local test object `result`, not the schedule being built"),
+  ("Schedule::applyKeywords", "snapContainer", "resize", "C04 mechanism: resize(reportStep+1) drops the snapshots AFTER reportStep before re-iterating from it; snapshots 0..reportStep are kept (modelled in SchedAction)"),
+  ("Schedule::applyAction", "snapContainer", "resize", "C04 mechanism: resize(reportStep+1) drops the snapshots AFTER reportStep before re-iterating from it; snapshots 0..reportStep are kept (modelled in SchedAction)"),
+  ("Schedule::filterConnections", "snapOtherW", "all", "same loop as the snapAlias/all entry: post-construction filter applied to every snapshot on purpose, not a keyword handler"),
+  ("Schedule::filterConnections", "snapOtherW", "alias:all", "same: the wells of every snapshot are filtered in place by design"),
+  ("Schedule::applyWellProdIndexScaling", "snapIndexW", "step", "run-time PI scaling: non-const Well& of every step >= reportStep (the refShared other:step entry seen by the index scan)"),
+  ("Schedule::applyWellProdIndexScaling", "snapOtherW", "alias:[step]", "run-time PI scaling: &well collected in unique_wells and scaled in place")
 ]
 
 def allowed (s : Site) : Bool :=
@@ -125,7 +166,8 @@ theorem handlers_table_nonempty : 8 ≤ nFiles ∧ 40 ≤ sites.length := by dec
 
 /-! ### non-vacuity -/
 
-def k0 : Consts := { one := "1", zero := "-", bhpProd := "b", bhpInj := "B" }
+def k0 : Consts := { one := "1", zero := "-", bhpProd := "b", bhpInj := "B", num0 := "0", siP := "sP", siLRate := "sL",
+                     siTime := "sT", bhpProdSI := "bS", bhpHistSI := "bH", bhpInjHSI := "bI" }
 def d0 : Date := { y := 2015, m := 1, d := 1 }
 def pre0 : List (Kw CKw) := [.other (.ops "GRUPTREE" [.gruptree "G1" "FIELD", .gruptree "G2" "G1"]), .other (.ops "RPTRST" [])]
 def t0 : Kw CKw := .tstep [{ num := 10, den := 1 }, { num := 1, den := 2 }]
@@ -139,6 +181,27 @@ example : ((schedule k0 (d0.seconds * 1000) (pre0 ++ t0 :: tailA)).toOption.map 
 -- the two tails really produce different later states
 example : ((schedule k0 (d0.seconds * 1000) (pre0 ++ t0 :: tailA)).toOption.bind (·[2]?)).map (fun s => s.p.actions.length) = some 1 ∧
           ((schedule k0 (d0.seconds * 1000) (pre0 ++ t0 :: tailB)).toOption.bind (·[2]?)).map (fun s => (lookup s.p.groups "G2").map (·.parent)) = some (some "FIELD") := by
+  decide +kernel
+
+/-! restart with SKIPREST at report step 2 (1 FEB 2015): the skipped part contributes RPTRST and
+TUNING to block 0, its WELSPECS and its DATES record are dropped -/
+def cfgR : RCfg := { rstep := 2, rtime := ({ y := 2015, m := 2, d := 1 } : Date).seconds * 1000, skiprest := true }
+def wlR : String → Bool := fun k => ["VFPPROD", "VFPINJ", "RPTSCHED", "RPTRST", "TUNING", "MESSAGES"].contains k
+def kwsR : List (Kw String) :=
+  [.other "RPTRST", .other "WELSPECS", .dates [{ y := 2015, m := 1, d := 15 }], .other "TUNING", .other "WCONPROD",
+   .dates [{ y := 2015, m := 2, d := 1 }], .other "WELOPEN", .dates [{ y := 2015, m := 3, d := 1 }]]
+
+example : ((rblocks cfgR wlR (d0.seconds * 1000) kwsR).toOption.map fun bs => bs.map fun b => (b.ttype, b.kws)) =
+    some [(.start, ["RPTRST", "TUNING"]), (.restart, []), (.dates, ["WELOPEN"]), (.dates, [])] := by decide +kernel
+example : ((runEvsR cfgR wlR (rinit cfgR (d0.seconds * 1000)) (flatten (kwsR.take 5))).toOption.map (·.skip)) = some true := by
+  decide +kernel
+example : ((runEvsR cfgR wlR (rinit cfgR (d0.seconds * 1000)) (flatten (kwsR.take 6))).toOption.map fun s => (s.skip, s.closed.length)) =
+    some (false, 2) := by decide +kernel
+-- stepping over the restart time is the SKIPREST error
+example : ((rblocks cfgR wlR (d0.seconds * 1000) [.other "RPTRST", .dates [{ y := 2015, m := 2, d := 2 }]]).toOption.map List.length,
+           match rblocks cfgR wlR (d0.seconds * 1000) [.other "RPTRST", .dates [{ y := 2015, m := 2, d := 2 }]] with
+           | .error e => some e
+           | .ok _ => none) = (none, some DeckErr.skiprestMissed) := by
   decide +kernel
 
 /-- a state whose current snapshot holds object 0; after `create_next` that object is shared
